@@ -616,12 +616,44 @@ def coincidences(run):
     return before, after
 
 
+EVAL_CHUNK = 2500             # cases whose runs (environments, schedulers, traces) are alive at a time
+
+
 def evaluate(cases, oracles, nontrivial, rule, again_n=40):
     """replay `cases` through implementation and model, apply the direct `oracles` (functions (case, run) -> (fails, stats) or
-    fails); returns the dict a check's run(ctx) returns"""
+    fails); returns the dict a check's run(ctx) returns.  Long case lists are evaluated chunk by chunk (memory), the partial
+    results added up; the second execution of the first cases happens at the end of the first chunk."""
+    if len(cases) <= EVAL_CHUNK:
+        return _evaluate(cases, oracles, nontrivial, rule, again_n, set())
+    distinct, total = set(), None
+    for i in range(0, len(cases), EVAL_CHUNK):
+        part = cases[i:i + EVAL_CHUNK]
+        n0 = len(part)
+        r = _evaluate(part, oracles, nontrivial, rule, again_n if i == 0 else 0, distinct)
+        if total is None:
+            total = r
+        else:
+            ct, cr = total['coverage'], r['coverage']
+            for k in ('evaluations', 'distinct_nontrivial', 'traces_validated_against_impl', 'cases_executed_a_second_time', 'action_lines_replayed'):
+                ct[k] += cr[k]
+            ct['samples'] = (ct['samples'] + cr['samples'])[:2]
+            h = collections.Counter(ct['operation_histogram']); h.update(cr['operation_histogram'])
+            ct['operation_histogram'] = dict(sorted(h.items()))
+            st = dict(ct['oracle_statistics'])
+            for k, v in cr['oracle_statistics'].items():
+                st[k] = max(st.get(k, v), v) if (isinstance(v, float) or k.startswith('max')) else st.get(k, 0) + v
+            ct['oracle_statistics'] = dict(sorted(st.items()))
+            total['disagreements'] += r['disagreements']
+            total['oracle_failures'] += r['oracle_failures']
+        if len(part) < n0:
+            break               # the list was cut short: the scheduler under test spins case after case (see `replay`)
+    return total
+
+
+def _evaluate(cases, oracles, nontrivial, rule, again_n, distinct):
     runs, model, dis = replay(cases)
     orc, hist, stats_sum = [], collections.Counter(), collections.Counter()
-    distinct, nontriv, samples = set(), 0, []
+    nontriv, samples = 0, []
     for c in cases:
         r = runs[c['cid']]
         for l in r.acts:
